@@ -480,16 +480,16 @@ func runC36(c *core.Ctx, b core.Batch) {
 		o := gen.SchemaOpts{Prefix: fmt.Sprintf("c36.b%d.s%d", b.N, i), Features: i%2 == 0, JSONCollisions: i%2 == 1, MaxFields: 4 + i%9}
 		s := gen.GenSchema(r, o)
 		c.Log("C36 gen %s", o.Prefix)
-		bfds, pfds, ok := buildBoth(c, s, "gen")
-		if !ok {
-			continue
-		}
+		bfds, pfds, _ := buildBoth(c, s, "gen")
 		for fi := range bfds {
 			kb := &c36{c: c, origin: "builder"}
-			kp := &c36{c: c, origin: "protodesc"}
 			c.NoPanic("views:panic:builder", map[string]any{"proto_text": clip(s.Files[fi].String(), 2000)}, func() { kb.file(bfds[fi]) })
-			c.NoPanic("views:panic:protodesc", map[string]any{"proto_text": clip(s.Files[fi].String(), 2000)}, func() { kp.file(pfds[fi]) })
 			c.Count("builder_files")
+			if fi >= len(pfds) {
+				continue
+			}
+			kp := &c36{c: c, origin: "protodesc"}
+			c.NoPanic("views:panic:protodesc", map[string]any{"proto_text": clip(s.Files[fi].String(), 2000)}, func() { kp.file(pfds[fi]) })
 			c.Count("protodesc_files")
 			if c.WantSample() && i > 2 {
 				c.Sample(map[string]any{"schema": o.Prefix, "file": s.Files[fi].GetName(), "messages": len(s.Files[fi].MessageType), "constructions": "builder+protodesc"})
